@@ -40,7 +40,7 @@ broadcast use ax::axiom_from_invalid_index;
 //@include prelude/inc_tree_core.rs
 
 
-//@include prelude/inc_tree_edit.rs
+//@include prelude/inc_tree_nav.rs
 
 // `path.reverse()` on the vector of (node, label) pairs (ASSUMED: std Vec::reverse)
 #[verifier::external_body]
